@@ -185,6 +185,12 @@ def run(sc, choices=None):
     if sc.get("prior"):
         cfg["prior"] = dict(sc["prior"])  # the object was used before: an earlier connection was lost mid-frame / mid-message
     cfg["no_multithread"] = bool(sc.get("no_multithread"))
+    cfg["write_fail"] = sc.get("write_fail")
+    if sc.get("after_refused"):
+        if not 1 <= int(sc["after_refused"]) < len(frames):
+            raise InvalidScenario("after_refused")
+        cfg["continue_after_exc"] = True
+        cfg["max_calls"] = len(frames) + 6
     out = run_recv(int(sc.get("seed", 1)), stream, cfg, res)
     last = frames[-1]
     b0 = (last.fin << 7) | (last.rsv << 4) | last.opcode
@@ -198,6 +204,36 @@ def run(sc, choices=None):
     ctx = f"{'recv_frame' if api == 'recv_frame' else 'message_level'}/{cls}"
     if fire:
         ctx += "/per_fragment"
+    if sc.get("after_refused"):
+        # the first message is refused for its payload (C06's business); the caller keeps receiving: the sequencing rules apply
+        # to what follows as at the start of a connection (no message in progress)
+        from ..recvdrv import predict, obs_matches
+        n1 = int(sc["after_refused"])
+        ctx = "message_level/after_refused_text" + ("/per_fragment" if fire else "")
+        e1, _, _ = predict(frames[:n1], api, fire, False, "none")
+        e2, _, _ = predict(frames[n1:], api, fire, False, "eof")
+        if fire:
+            # per-fragment delivery: fragments are handed over until one makes the text ill-formed; from there on the rest of
+            # that message is refused too (the model used by predict() does not look at text payloads in this mode)
+            import codecs
+            dec, failed, e1p = codecs.getincrementaldecoder("utf-8")(), False, []
+            for i, f in enumerate(frames[:n1]):
+                if not failed:
+                    try:
+                        dec.decode(f.payload, bool(f.fin))
+                    except UnicodeDecodeError:
+                        failed = True
+                e1p.append(["exc", "WebSocketPayloadException"] if failed else e1[i])
+            e1 = e1p
+        if e2 and e2[-1][0] == "exc" and e2[-1][1] != "WebSocketConnectionClosedException":
+            e2.append(["exc", "WebSocketConnectionClosedException"])
+        why = obs_matches(out["obs"], e1 + e2, True, fire)
+        if why:
+            res.violate("illegal_input_accepted" if "stray" in sc.get("state", "") else "legal_input_rejected", ctx, why + f" ({sc.get('state')})")
+        res.sig = repr(("after_refused", api, sc.get("state"), fire))
+        res.nontrivial = True
+        res.probes["receiving_continues_after_refused_text"] = 1
+        return res
     check_model(res, out, frames, api, fire, False, "eof", ctx)
     res.sig = repr((api, sc.get("state"), sc.get("word"), b0, lcls, extra, len(frames), fire))
     res.nontrivial = cls != "legal" or len(frames) > 1
@@ -256,14 +292,38 @@ def gen(rng):
         sc["prior"] = pr
     if rng.random() < 0.1:
         sc["no_multithread"] = True  # WebSocket(enable_multithread=False): the no-op lock stand-in
+    if rng.random() < 0.08 and not sc.get("sender"):
+        sc["write_fail"] = rng.choice(("EPIPE", "ECONNRESET"))  # every write of the client fails: replies are lost, deliveries are not
     return sc
 
 
 def plan(tier, seed):
-    return _plan0(tier, seed) + [{"kind": "reused", "count": 120 if tier == "quick" else 12000}]
+    return _plan0(tier, seed) + [{"kind": "reused", "count": 120 if tier == "quick" else 12000},
+                                 {"kind": "after_refused", "exhaustive": "a text message refused for its payload (unfragmented / two fragments / three fragments) x "
+                                  "what follows {stray continuation, final stray continuation, new text, new binary, fragmented text, ping then text} x "
+                                  "4 receive calls x whole-message / per-fragment delivery: the caller keeps receiving"}]
+
+
+_REFUSED = {"single": [{"fin": 1, "op": 1, "hex": "61ff62"}],
+            "two": [{"fin": 0, "op": 1, "hex": "61"}, {"fin": 1, "op": 0, "hex": "ff"}],
+            "three_cut_short": [{"fin": 0, "op": 1, "hex": "e2"}, {"fin": 0, "op": 0, "hex": "82"}, {"fin": 1, "op": 0, "hex": ""}]}
+_FOLLOW = {"stray_cont": [{"fin": 0, "op": 0, "hex": "616263"}], "stray_final_cont": [{"fin": 1, "op": 0, "hex": "616263"}],
+           "new_text": [{"fin": 1, "op": 1, "hex": "6f6b"}], "new_binary": [{"fin": 1, "op": 2, "hex": "00ff"}],
+           "fragmented_text": [{"fin": 0, "op": 1, "hex": "c3"}, {"fin": 1, "op": 0, "hex": "a9"}],
+           "ping_then_text": [{"fin": 1, "op": 9, "hex": "70"}, {"fin": 1, "op": 1, "hex": "6f6b"}]}
 
 
 def expand(item, seed):
+    if item.get("kind") == "after_refused":
+        for rk in _REFUSED:
+            for fk in _FOLLOW:
+                for api in ("recv", "recv_data", "recv_data_frame", "recv_data_frame_ctrl"):
+                    for fire in (False, True):
+                        if fire and api == "recv":
+                            continue
+                        yield {"frames": _REFUSED[rk] + _FOLLOW[fk], "api": api, "state": "after_refused:" + rk + ":" + fk, "sizes": [3],
+                               "seed": 1, "fire_cont": fire, "after_refused": len(_REFUSED[rk])}
+        return
     if item.get("kind") == "reused":
         for i in range(item["count"]):
             sc = _gen0(random.Random(derive_seed(seed, ID + "R", i)))
